@@ -11,6 +11,8 @@
 (*           exact                                                          *)
 (*  "lerps"  64-bit types beyond 2^31: values m * 2^s (m < 4096), x = k/16: *)
 (*           r = 16 * result / 2^s, exact                                   *)
+(*  "lerpw"  wide ranges (multiples of 2^24) at the f32 neighbours of x = 0  *)
+(*           and x = 1: exact where every f32 intermediate is exact          *)
 (*  "summary" float-comparison laws and glam component-wise counts          *)
 (*  a record with "panic" is a violation (no panic for representable input) *)
 (***************************************************************************)
@@ -22,7 +24,7 @@ Init == l = 1
 
 Abs(v) == IF v < 0 THEN -v ELSE v
 RECURSIVE Ulp(_, _)
-Ulp(v, m) == IF v < 16777216 * m THEN m ELSE Ulp(v, 2 * m)
+Ulp(v, m) == IF (v \div m) < 16777216 THEN m ELSE Ulp(v, 2 * m)      \* (no product: TLC integers are 32-bit)
 \* a + (b - a) * n / d without 32-bit overflow: d is a power of two <= 2^25 here and |a|,|b| < 2^31
 \* exact real interpolation = q + f/d with q integer, 0 <= f < d, computed by splitting
 Split(a, b, n, d) ==
@@ -51,10 +53,23 @@ CheckInt(r) ==
                IN \/ r.r[i] = RoundHA(p, d)                      \* nearest integer
                   \/ (Abs(t - d) <= 64 /\ Abs(r.r[i] - RoundHA(p, d)) = 1))   \* within 2^-20 of a tie: f32 cannot tell
 
+\* "lerpw": a = ma * 2^24, b = mb * 2^24 (ma, mb <= 127), x = n / 2^24: the real interpolation is the integer
+\* P = ma * (2^24 - n) + mb * n.  For ma, mb <= 1 both f32 products and their sum are exact (at most 24 bits), so
+\* the result is P itself - in particular one step away from an end point is NOT the end point; otherwise
+\* within two f32 spacings.  End points always exact.
+CheckWide(r) ==
+  \A i \in 1..Len(r.ns) :
+    LET n == r.ns[i]  P == r.ma * (16777216 - n) + r.mb * n IN
+    IF n = 0 THEN r.r[i] = r.ma * 16777216
+    ELSE IF n = 16777216 THEN r.r[i] = r.mb * 16777216
+    ELSE IF r.ma <= 1 /\ r.mb <= 1 THEN r.r[i] = P
+    ELSE Abs(r.r[i] - P) <= 2 * Ulp(P, 1)
+
 CheckRec(r) ==
   IF r.ev = "lerp" THEN "panic" \notin DOMAIN r /\ CheckInt(r)
   ELSE IF r.ev = "lerpf" THEN \A k \in 0..16 : r.r[k + 1] = Num(r.a, r.b, k, 16)
   ELSE IF r.ev = "lerps" THEN "panic" \notin DOMAIN r /\ \A k \in 0..16 : r.r[k + 1] = Num(r.ma, r.mb, k, 16)
+  ELSE IF r.ev = "lerpw" THEN "panic" \notin DOMAIN r /\ CheckWide(r)
   ELSE r.float_bad = 0 /\ r.glam_bad = 0 /\ r.float_checked > 0 /\ r.glam_checked > 0
 
 Step == l <= Len(Rec) /\ CheckRec(Rec[l]) /\ l' = l + 1
